@@ -338,6 +338,12 @@ fn run_csr<Ty: EdgeType, Ix: IndexType>(
                     let r = g.add_node(wt);
                     ctx.line(&format!("add_node {}", wt), &r.index().to_string());
                     mutating = true;
+                } else if n >= cap_nodes {
+                    // full for the index type: the documented panic; the dump below observes "unchanged"
+                    let wt = rng.range(-2, 9) as i32;
+                    let r = catch(|| g.add_node(wt).index());
+                    ctx.line(&format!("add_node {}", wt), &r.map(|x| x.to_string()).unwrap_or("panic".into()));
+                    mutating = true;
                 }
             }
             1 | 2 | 15 => {
@@ -454,15 +460,33 @@ fn run_csr<Ty: EdgeType, Ix: IndexType>(
         }
     }
     dump_csr(ctx, &g);
-    // open finding D31: beyond the index type's capacity `add_node` silently wraps (`Ix::new(i)`).
-    // Probe it as the LAST call of some u8 cases (the state is meaningless afterwards).
+    // finding D31 (fixed by 8cab180): beyond the index type's capacity `add_node` used to wrap silently
+    // (`Ix::new(i)`); now it is the documented panic and the graph is unchanged.  Probe it at the end of some
+    // u8 cases: fill up, call `add_node` on the full graph, observe the whole structure again, and check that
+    // the graph is still usable at the top of the index range.
     if w == 8 && rng.chance(30) {
         while g.node_count() < 256 {
             let r = g.add_node(0);
             ctx.line("add_node 0", &r.index().to_string());
         }
-        let r = catch(|| g.add_node(0).index());
-        ctx.line("add_node 0", &r.map(|x| x.to_string()).unwrap_or("panic".into()));
+        dump_csr(ctx, &g);
+        for _ in 0..1 + rng.below(2) {
+            let wt = rng.range(-2, 9) as i32;
+            let r = catch(|| g.add_node(wt).index());
+            ctx.line(&format!("add_node {}", wt), &r.map(|x| x.to_string()).unwrap_or("panic".into()));
+            dump_csr(ctx, &g);
+        }
+        let (a, b) = (255 - rng.below(3), 255 - rng.below(3));
+        let wt = rng.range(-3, 4) as i32;
+        let r = match g.try_add_edge(Ix::new(a), Ix::new(b), wt) {
+            Ok(v) => format!("ok {}", v),
+            Err(petgraph::csr::CsrError::IndicesOutBounds(x, y)) => format!("err {} {}", x, y),
+        };
+        ctx.line(&format!("try_add_edge {} {} {}", a, b, wt), &r);
+        dump_csr(ctx, &g);
+        let r = catch(|| g.add_node(1).index());
+        ctx.line("add_node 1", &r.map(|x| x.to_string()).unwrap_or("panic".into()));
+        dump_csr(ctx, &g);
     }
 }
 
@@ -601,6 +625,11 @@ fn run_list<Ix: IndexType>(ctx: &mut Ctx, rng: &mut Rng, case: u64, w: u32) {
                         _ => { let r = Build::add_node(&mut g, ()); ctx.line("build_add_node", &r.index().to_string()); }
                     }
                     mutating = true;
+                } else {
+                    // full for the index type: the documented panic; the dump below observes "unchanged"
+                    let v = rng.below(4);
+                    full_add_node(ctx, rng, &mut g, v);
+                    mutating = true;
                 }
             }
             1 => {
@@ -720,14 +749,65 @@ fn run_list<Ix: IndexType>(ctx: &mut Ctx, rng: &mut Rng, case: u64, w: u32) {
     }
     let hs = pick_dump(rng, &handles, &stale, &foreign);
     dump_list(ctx, &g, &hs);
-    // open finding D31 (see run_csr): last call of some u8 cases
+    // finding D31 (fixed by 8cab180, see run_csr): fill up, call every `add_node` variant on the full list
+    // (documented panic), observe the whole structure after each, and check that the list is still usable
     if w == 8 && rng.chance(30) {
         while g.node_count() < 256 {
             let r = g.add_node();
             ctx.line("add_node", &r.index().to_string());
         }
-        let r = catch(|| g.add_node().index());
-        ctx.line("add_node", &r.map(|x| x.to_string()).unwrap_or("panic".into()));
+        let hs = pick_dump(rng, &handles, &stale, &foreign);
+        dump_list(ctx, &g, &hs);
+        let mut order = [0usize, 1, 2, 3];
+        rng.shuffle(&mut order);
+        for &v in &order {
+            full_add_node(ctx, rng, &mut g, v);
+            let hs = pick_dump(rng, &handles, &stale, &foreign);
+            dump_list(ctx, &g, &hs);
+        }
+        let (a, b) = (255 - rng.below(3), 255 - rng.below(3));
+        let wt = rng.range(-3, 4) as i32;
+        match catch(|| g.add_edge(Ix::new(a), Ix::new(b), wt)) {
+            Some(e) => { ctx.line(&format!("add_edge {} {} {}", a, b, wt), &eix(&e)); handles.push(e); }
+            None => ctx.line(&format!("add_edge {} {} {}", a, b, wt), "panic"),
+        }
+        let hs = pick_dump(rng, &handles, &stale, &foreign);
+        dump_list(ctx, &g, &hs);
+        full_add_node(ctx, rng, &mut g, 0);
+        let hs = pick_dump(rng, &handles, &stale, &foreign);
+        dump_list(ctx, &g, &hs);
+    }
+}
+
+/// one `add_node` variant on a list that may be full for its index type: the answer is the new index or `panic`
+/// (`variant`: 0 `add_node`, 1 `add_node_with_capacity`, 2 `Build::add_node`, 3 `add_node_from_edges`)
+fn full_add_node<Ix: IndexType>(ctx: &mut Ctx, rng: &mut Rng, g: &mut List<i32, Ix>, variant: usize) {
+    let show = |r: Option<usize>| r.map(|x| x.to_string()).unwrap_or("panic".into());
+    match variant {
+        0 => {
+            let r = catch(|| g.add_node().index());
+            ctx.line("add_node", &show(r));
+        }
+        1 => {
+            let c = rng.below(5);
+            let r = catch(|| g.add_node_with_capacity(c).index());
+            ctx.line(&format!("add_node_cap {}", c), &show(r));
+        }
+        2 => {
+            let r = catch(|| Build::add_node(g, ()).index());
+            ctx.line("build_add_node", &show(r));
+        }
+        _ => {
+            // successors among the existing nodes only (the new node's own index is not representable)
+            let n = g.node_count();
+            let len = rng.below(4);
+            let es: Vec<(usize, i32)> = (0..len).map(|_| (rng.below(n.max(1)), rng.range(-3, 4) as i32)).collect();
+            let r = catch(|| g.add_node_from_edges(es.iter().map(|&(b, w)| (Ix::new(b), w))).index());
+            ctx.line(
+                &format!("add_node_from {}", recs(es.iter().map(|(b, w)| format!("{}:{}", b, w)).collect())),
+                &show(r),
+            );
+        }
     }
 }
 
